@@ -133,7 +133,14 @@ func VH_C17_single() {
 		m = &c17Mon{p: vPayload("p"), x: c17Payload("x")}
 	}
 	n := c17Build(m)
-	if vNondet[bool]("withRetryBudget") {
+	extra := vChoice("extraSetting", 3)
+	if extra == 2 {
+		// a fallback is for failed attempts: an exec that RETURNS an error result (with a nil error)
+		// has produced its result, which goes to post as it is
+		vCover("with-recovering-fallback")
+		n.WithExecFallbackFunc(func(p any, err error) (any, error) { return &vTok{id: 4711}, nil })
+	}
+	if extra == 1 {
 		// retry settings do not change what a (succeeding) exec receives
 		vCover("with-retry-budget")
 		n.WithMaxRetries(3)
